@@ -296,10 +296,8 @@ def join_tokens(toks, variant="canonical"):
                 out.append("\n\t ")
             elif variant == "commented":
                 comment_i += 1
-                if comment_i % 2:
-                    out.append(' /* c{ , " ; x */ ')
-                else:
-                    out.append(' // k } , " @\n')
+                forms = (' /* c{ , " ; x */ ', ' // k } , " @\n', ' /** boxed **/ ', ' /***/ ', ' /**/ ', ' /* a\n * b\n **/ ', ' //\n')
+                out.append(forms[comment_i % len(forms)])
             else:
                 if prev in ("{", ";") or (prev == "," and paren == 0) or (prev == "}" and t != ","):
                     out.append("\n")
